@@ -113,6 +113,7 @@ func scanCompleteRule(c *Ctx, rule string) {
 }
 
 func runC16(c *Ctx) {
+	trackerDropAfterCount(c, "listing")
 	scanCompleteRule(c, "listing")
 	rowsCompleteRule(c, "listing")
 	// contract: allowed ⊇ returned ⊇ required
